@@ -1513,4 +1513,16 @@ example : (validateD .dflt f1Env okSchema (.obj [])).1.isOk = true := by decide
 example : (validateD .multi f1Env okSchema (.obj [])).1.isOk = true := by decide
 
 
+
+
+/-- the second sentence of C12 for `validateD` where nothing can be injected (no DefaultsSet / no reading / no property
+default in the schema): every reported error points into the value handed back and quotes what is found there. With
+injection this is checked per case by the run (every error of every mode is resolved in the value after validation). -/
+theorem errors_point_at_data_inert (m : Mode) (env : Env) (s : S) (v : J) (hw : WFJ v)
+    (h : env.injects = false ∨ s.hasPropDflt = false) :
+    ∀ e ∈ (validateD m env s v).1.errs, Loc (validateD m env s v).2 e := by
+  rw [validateD_inert m env s v hw h]
+  exact errors_point_at_data m env s v hw
+
+
 end KinModel.Schema
